@@ -41,6 +41,8 @@ def main():
     ap.add_argument("--props", default="C11,C15,C16,C17")
     ap.add_argument("--neutral", action="store_true")
     ap.add_argument("--runs", default=None)
+    ap.add_argument("--all-props", action="store_true", help="with --neutral: run every property of --props on every patch, not only the one it is named after")
+    ap.add_argument("--out", default=None, help="write the RESULT json here as well")
     a = ap.parse_args()
     lo, hi = (a.seeds.split("-") + [a.seeds])[:2]
     seeds = list(range(int(lo), int(hi) + 1))
@@ -69,17 +71,20 @@ def main():
                     print(name, "PATCH-DOES-NOT-APPLY", ap_.stderr[-200:])
                     bad += 1
                     continue
-                for s in seeds:
-                    rc, wall, stdout = run(prop, a.tier, s, repo=wt, runs=a.runs)
-                    print(f"neutral {name} seed={s} exit={rc} wall={wall:.1f}s", flush=True)
-                    out["neutral"].setdefault(name, {})[str(s)] = {"exit": rc, "wall_s": round(wall, 1)}
-                    if rc != 0:
-                        bad += 1
-                        print(stdout[-3000:])
+                for pr in (a.props.split(",") if a.all_props else [prop]):
+                    for s in seeds:
+                        rc, wall, stdout = run(pr, a.tier, s, repo=wt, runs=a.runs)
+                        print(f"neutral {name} check={pr} seed={s} exit={rc} wall={wall:.1f}s", flush=True)
+                        out["neutral"].setdefault(name, {}).setdefault(pr, {})[str(s)] = {"exit": rc, "wall_s": round(wall, 1)}
+                        if rc != 0:
+                            bad += 1
+                            print(stdout[-3000:])
             finally:
                 subprocess.run(["git", "-C", "/repo", "worktree", "remove", "--force", wt])
                 shutil.rmtree(wt, ignore_errors=True)
     print("RESULT", json.dumps(out))
+    if a.out:
+        json.dump(out, open(a.out, "w"), indent=1, sort_keys=True)
     sys.exit(1 if bad else 0)
 
 
